@@ -85,7 +85,15 @@ def run(ctx):
             ctx.ok('R1', 'other:' + name, f, OTHER[name], nontrivial=False)
             continue
         else:
-            ctx.unknown('R1', 'unclassified:' + name, f, 'exported method %s is not in the endpoint table of C14' % name)
+            # an export the property does not name: harmless if it touches no canister state (a version
+            # or health string); one that reads or writes state without the gates needs classifying
+            res = ga.walk(f, is_sink, {'api_access', 'network', 'synced'})
+            loose = [(c, path, miss) for c, path, miss in (res or []) if miss]
+            if loose:
+                ctx.unknown('R1', 'unclassified:' + name, f, 'exported method %s is not in the endpoint table of C14 and accesses state (%s) without the gates (missing %s)'
+                            % (name, loose[0][0].short, sorted(loose[0][2])))
+            else:
+                ctx.ok('R1', 'unclassified:' + name, f, 'exported method %s is not a data endpoint named by the property and reaches no ungated state access' % name, nontrivial=False)
             continue
         n_gated += 1
         res = ga.walk(f, is_sink, req)
